@@ -104,9 +104,12 @@ fn replay_text(label: &str, bytes: &[u8]) -> String {
 	format!("label={label}\nclass file bytes (hex):\n{}", oracle::fast_hex(bytes))
 }
 
-/// a stable, digit-free category of a parser message
+/// a stable category of a parser or panic message: its first words, every token with a digit dropped
 fn message_class(msg: &str) -> String {
-	let words: Vec<String> = msg.split(|c: char| !c.is_ascii_alphabetic() && c != '_').filter(|w| w.len() > 1).take(6).map(|w| w.to_ascii_lowercase()).collect();
+	let words: Vec<String> = msg.split_whitespace()
+		.map(|w| w.trim_matches(|c: char| !c.is_ascii_alphanumeric() && c != '_'))
+		.filter(|w| w.len() > 1 && !w.chars().any(|c| c.is_ascii_digit()) && w.chars().all(|c| c.is_ascii_alphanumeric() || c == '_'))
+		.take(6).map(|w| w.to_ascii_lowercase()).collect();
 	words.join("-")
 }
 
